@@ -603,6 +603,19 @@ def is_private_helper(g):
     return (g.j.get("method") or g.name.split("::")[-1]) not in rule_names()
 
 
+def _subst_generics(x, gmap, key=None):
+    """replace whole-word type parameter names inside the type strings of a copied block (self_ty / full / args / ty)"""
+    if isinstance(x, dict):
+        return {k: _subst_generics(v, gmap, k) for k, v in x.items()}
+    if isinstance(x, list):
+        return [_subst_generics(v, gmap, key) for v in x]
+    if isinstance(x, str) and key in ("self_ty", "full", "args", "ty", "fn_ty"):
+        for n, a in gmap.items():
+            x = re.sub(r"\b%s\b" % re.escape(n), a.replace("\\", "\\\\"), x)
+        return x
+    return x
+
+
 def inline_private_helpers(F, fn, depth=2, max_blocks=4000, light=True):
     """A copy of `fn` in which calls to *private, non-anchor methods / associated functions of the same type* are replaced by
     the callee's body (locals renumbered, parameters assigned from the arguments, `return` turned into an assignment of the
@@ -666,9 +679,17 @@ def inline_private_helpers(F, fn, depth=2, max_blocks=4000, light=True):
                         propagated = True
             if propagated:
                 j.setdefault("ret_locals", []).append(off_l)
+            # a generic helper (`skip::<T>`) is inlined with its type parameters replaced by the call site's arguments, so a
+            # `T::decode` inside it reads as the concrete component type
+            gmap = {}
+            gnames, gargs = g.j.get("generics") or [], f.get("args") or []
+            if gnames and len(gnames) == len(gargs):
+                gmap = {n: a for n, a in zip(gnames, gargs) if not n.startswith("'") and n != a and re.match(r"^[A-Za-z_][A-Za-z0-9_]*$", n)}
             for gbi, gb in enumerate(g.j["mir"]["blocks"]):
                 nb = {"stmts": [_shift(s, off_l, off_b) for s in gb["stmts"]], "term": _shift_term(gb["term"], off_l, off_b),
                       "from": gb.get("from") or [g.id, gbi]}
+                if gmap:
+                    nb = _subst_generics(nb, gmap)
                 if gb.get("cleanup"):
                     nb["cleanup"] = True
                 if gb["term"]["k"] == "return":
